@@ -4,15 +4,17 @@ from symx.core import SymInt, all_, any_, eq, ite
 PROPERTY = "C05"
 FUNCTIONS = ["gcmpy.joint_degree.joint_degree.JointDegree.sample_jds_from_jdd", "JointDegree.handshaking_lemma",
              "gcmpy.joint_degree.joint_degree_loaders.joint_degree_manual.JointDegreeManual"]
-STUBS = ["random.choices(population, weights, k) -> k fresh indices restricted to positive-weight items; items selected as If-chains (no fork)",
-         "random.randrange -> fresh bounded index"]
+STUBS = ["random.choices(population, weights | cum_weights, k) -> k fresh indices restricted to positive-weight items; items selected as If-chains (no fork)",
+         "random.randrange / choice -> fresh bounded index", "random.random -> fresh real in [0,1)",
+         "handshaking_lemma (public method, when present) is wrapped by a recorder of its argument: the N drawn keys"]
 BOUNDS = {
     "quick": "N in 1..3; one topology: 1..3 distinct keys with entries 0..2; two topologies: 1..2 keys (entries 0..2, 0..1 at N=3) and 3 keys "
              "with entries 0..1 at N=2; positive symbolic weights (not normalised); motif-size vectors [1],[2],[3],[2,3],[3,2],[1,2],[3,3],[2,2],[2,3,2]",
     "thorough": "N in 1..4; one topology: up to 4 keys, entries 0..3; two topologies: up to 3 keys (2 at N=4), entries 0..2",
 }
-OUTSIDE = "N>4, more than 4 keys or 2 topologies; a sampler re-implemented over random() and cumulative sums (law and minimality are " \
-          "reported undecided); statistical quality of random.choices"
+OUTSIDE = "N>4, more than 4 keys or 2 topologies; draw mechanisms other than (1) one weighted random.choices call or (2) inversion of the " \
+          "dictionary-order cumulative weights with one random.random() per draw (confirmed when the path condition entails the interval, " \
+          "otherwise the law is reported undecided - no refutation for mechanism 2); statistical quality of random.choices / random.random"
 ASSUMPTIONS = ["random.choices draws index i with probability weights[i]/sum(weights) (CPython) - the check proves that it is called once "
                "with k=N, the keys in dictionary order and weights proportional to the distribution's values",
                "motif sizes are positive integers"]
@@ -65,6 +67,27 @@ def fork_keys(ctx, K, D, nk_max):
     return keys
 
 
+def spy_handshake(loader):
+    """records (a copy of) every argument handed to the public handshaking_lemma method, if the loader has one"""
+    cap = []
+    inner = getattr(loader, "handshaking_lemma", None)
+    if inner is None:
+        return None
+
+    def spy(jds, *a, **kw):
+        try:
+            cap.append([tuple(e) for e in jds])
+        except Exception:  # noqa
+            cap.append(None)
+        return inner(jds, *a, **kw)
+
+    try:
+        loader.handshaking_lemma = spy
+    except Exception:  # noqa  (slots / read-only)
+        return None
+    return cap
+
+
 def path(ctx, cfg):
     from gcmpy.joint_degree.joint_degree_loaders.joint_degree_empirical import JointDegreeEmpirical
     from gcmpy.joint_degree.joint_degree_loaders.joint_degree_manual import JointDegreeManual
@@ -86,8 +109,9 @@ def path(ctx, cfg):
         keys = list(dict.fromkeys(s2))
         W = [s2.count(k) for k in keys]
         n0 = len(ctx.rng_log)
+        cap = spy_handshake(loader)
         out = ctx.guard("sampling-raised", loader.sample_jds_from_jdd, N)
-        return check_sample(ctx, f"empirical {s1} then {s2} sizes={sizes} N={N} (second sample)", out, keys, W, sizes, N, K, n0)
+        return check_sample(ctx, f"empirical {s1} then {s2} sizes={sizes} N={N} (second sample)", out, keys, W, sizes, N, K, n0, cap)
     if cfg.get("numpy"):
         import numpy as np
 
@@ -97,18 +121,22 @@ def path(ctx, cfg):
         W = [0.5, 0.25, 0.25]
         loader = ctx.guard("loader-raised", JointDegreeManual, {JN.JDD: dict(zip(keys, W)), JN.MOTIF_SIZES: list(sizes)})
         n0 = len(ctx.rng_log)
+        cap = spy_handshake(loader)
         out = ctx.guard("sampling-raised", loader.sample_jds_from_jdd, N)
         out = [tuple(int(x) for x in e) if type(e) is tuple else e for e in out]
         for rec in ctx.rng_log[n0:]:
-            if rec["fn"] == "choices":
+            if rec["fn"] == "choices" and rec["weights"] is not None:
                 rec["result"] = [tuple(int(x) for x in e) for e in rec["result"]]
-        return check_sample(ctx, f"numpy {cfg['numpy']} keys {[int(k[0]) for k in keys]} sizes={sizes} N={N}", out, keys, W, sizes, N, K, n0)
+        if cap:
+            cap[:] = [[tuple(int(x) for x in e) for e in c] if c is not None else None for c in cap]
+        return check_sample(ctx, f"numpy {cfg['numpy']} keys {[int(k[0]) for k in keys]} sizes={sizes} N={N}", out, keys, W, sizes, N, K, n0, cap)
     keys = fork_keys(ctx, K, cfg["D"], cfg["nk"])
     W = [ctx.real(f"w{j}", 0, lo_strict=True) for j in range(len(keys))]
     jdd = {k: w for k, w in zip(keys, W)}
     desc = f"keys={keys} sizes={sizes} N={N}"
     loader = ctx.guard("loader-raised", JointDegreeManual, {JN.JDD: jdd, JN.MOTIF_SIZES: list(sizes)})
     n0 = len(ctx.rng_log)
+    cap = spy_handshake(loader) if how is None else None
     out = ctx.guard("sampling-raised", loader.sample_jds_from_jdd, N if how is None else 1)
     if how == "setter":
         # replace the distribution through the public setter and sample again: the second sample must follow the new one
@@ -118,11 +146,12 @@ def path(ctx, cfg):
         loader.jdd = {k: w for k, w in zip(keys, W)}
         desc = f"after replacing the distribution by keys={keys} sizes={sizes} N={N} (second sample)"
         n0 = len(ctx.rng_log)
+        cap = spy_handshake(loader)
         out = ctx.guard("sampling-raised", loader.sample_jds_from_jdd, N)
-    return check_sample(ctx, desc, out, keys, W, sizes, N, K, n0)
+    return check_sample(ctx, desc, out, keys, W, sizes, N, K, n0, cap, free_weights=True)
 
 
-def check_sample(ctx, desc, out, keys, W, sizes, N, K, n0):
+def check_sample(ctx, desc, out, keys, W, sizes, N, K, n0, cap=None, free_weights=False):
     ctx.require(isinstance(out, list) and len(out) == N, "length", f"{desc}: {len(out)} entries returned", twin=(len(out) == N + 1))
     if len(out) != N:
         return
@@ -142,22 +171,65 @@ def check_sample(ctx, desc, out, keys, W, sizes, N, K, n0):
                 twin=all_(eq((sum_(e[k] for e in out) + 1) % sizes[k], 0) for k in range(K)) if max(sizes) > 1 else None)
     ctx.require(all_(conds_nn), "non-negative", f"{desc}: negative entry in {out}")
     log = ctx.rng_log[n0:]
-    ch = [c for c in log if c["fn"] == "choices"]
-    if any(c["fn"] not in ("choices", "randrange", "sample", "choice") for c in log) or len(ch) > 1:
-        ctx.note("undecided: the draw is not made by exactly one random.choices call (law / minimality not decided)")
+    # --- which weighted-draw mechanism?  (1) one weighted random.choices call  (2) inversion of the cumulative weights with one
+    # random.random() per draw.  The N drawn keys are the result of (1) and / or what the public handshaking_lemma method was handed.
+    ch = [c for c in log if c["fn"] == "choices" and c["weights"] is not None]
+    handed = cap[0] if cap and len(cap) == 1 and cap[0] is not None and len(cap[0]) == N else None
+    uni = [c for c in log if c["fn"] == "random"]
+    pickers = ("choices", "randrange", "sample", "choice")
+    drawn = None
+    if len(ch) == 1 and not uni and all(c["fn"] in pickers for c in log):
+        rec = ch[0]
+        ok_call = rec["k"] == N and list(rec["population"]) == list(keys) and rec["weights"] is not None and len(rec["weights"]) == len(keys)
+        ctx.require(ok_call, "weighted-draw", f"{desc}: random.choices called with population={rec['population']} k={rec['k']}", twin=(not ok_call))
+        if ok_call:
+            w = rec["weights"]
+            ctx.require(all_(eq(w[i] * W[0], w[0] * W[i]) for i in range(len(keys))), "weighted-draw",
+                        f"{desc}: weights handed to random.choices are not proportional to the distribution",
+                        twin=all_(eq(w[i] * W[0], w[0] * W[i] * 2) for i in range(len(keys))) if len(keys) > 1 else None, logic="QF_NRA")
+        drawn = rec["result"]
+        if handed is not None and len(drawn) == N:
+            same = all_(eq(a, b) for h, d in zip(handed, drawn) for a, b in zip(h, d))
+            ctx.require(same, "weighted-draw", lambda: f"{desc}: drawn {drawn} but handshaking_lemma was handed {handed}", sig="weighted-draw:altered-before-handshake")
+    elif not ch and len(uni) == N and all(c["fn"] == "random" for c in log[:N]) and all(c["fn"] in pickers for c in log[N:]) and handed is not None:
+        # inversion: draw j must be the key whose cumulative-weight interval (dictionary order) contains r_j * total.  Only a
+        # confirmation is possible here (another order of the keys would be just as right), so a failed entailment is 'undecided'.
+        idx = []
+        for h in handed:
+            hh = tuple(x.concrete() if isinstance(x, SymInt) else x for x in h)
+            idx.append(keys.index(hh) if hh in keys else None)
+        are_keys = all(i is not None for i in idx)
+        ctx.require(are_keys, "weighted-draw", lambda: f"{desc}: handshaking_lemma was handed {handed}, not {N} keys of the distribution", sig="weighted-draw:not-keys")
+        if not are_keys:
+            return
+        tot = sum_(W)
+        goals = []
+        for j, i in enumerate(idx):
+            r = uni[j]["result"]
+            lo = sum_(W[:i])
+            goals.append(r * tot >= lo)
+            if i < len(keys) - 1:
+                goals.append(r * tot < lo + W[i])
+        proved = ctx.mode != "sym" or ctx.entails(list(ctx.pc), all_(goals)) == "unsat"
+        if proved:
+            ctx.require(all_(goals), "weighted-draw", f"{desc}: inverse-CDF draw outside the key's cumulative-weight interval", logic="QF_NRA")
+        else:
+            ctx.note("undecided: inverse-CDF sampler whose intervals are not the dictionary-order cumulative weights (law not decided)")
+        drawn = handed
+    else:
+        if not ch and not uni and free_weights and len(keys) >= 2:
+            # arbitrary positive real weights cannot be realised without a weighted draw or a uniform variate
+            ctx.require(False, "weighted-draw", f"{desc}: no weighted draw was made for this sample (RNG calls: {[c['fn'] for c in log]})", sig="weighted-draw:none")
+            return
+        if handed is not None:
+            drawn = handed
+            ctx.note("undecided: unrecognised weighted-draw mechanism (law not decided; minimality checked against what handshaking_lemma was handed)")
+        else:
+            ctx.note("undecided: unrecognised weighted-draw mechanism and no handshaking_lemma call to observe (law / minimality not decided)")
+            return
+    if drawn is None or len(drawn) != N:
+        ctx.require(False, "weighted-draw", f"{desc}: {None if drawn is None else len(drawn)} keys drawn for N={N}", sig="weighted-draw:count")
         return
-    ctx.require(len(ch) == 1, "weighted-draw", f"{desc}: no weighted draw was made for this sample (RNG calls: {[c['fn'] for c in log]})", sig="weighted-draw:none")
-    if len(ch) != 1:
-        return
-    rec = ch[0]
-    ok_call = rec["k"] == N and list(rec["population"]) == list(keys) and rec["weights"] is not None and len(rec["weights"]) == len(keys)
-    ctx.require(ok_call, "weighted-draw", f"{desc}: random.choices called with population={rec['population']} k={rec['k']}", twin=(not ok_call))
-    if ok_call:
-        w = rec["weights"]
-        ctx.require(all_(eq(w[i] * W[0], w[0] * W[i]) for i in range(len(keys))), "weighted-draw",
-                    f"{desc}: weights handed to random.choices are not proportional to the distribution",
-                    twin=all_(eq(w[i] * W[0], w[0] * W[i] * 2) for i in range(len(keys))) if len(keys) > 1 else None, logic="QF_NRA")
-    drawn = rec["result"]
     conds_add, conds_min = [], []
     for k in range(K):
         tot_d, tot_add = 0, 0
